@@ -439,6 +439,20 @@ fn selftest_translator() {
     t.k = KSpec::K("1.5".into());
     let p = Pipe { header: true, globals: vec![], g_ell: Ell::No, g_k: KSpec::No, inv: false, steps: vec![t, mkstep("noop", &[])] };
     eq(&p, "tmerc inv ellps=6378249.145,293.465 k_0=1.5 | noop");
+    // push/pop: a step-level inv is kept (pop inv = push), a pipeline-level inv reverses and inverts
+    // every step, so the two cancel on a step carrying its own inv (pushpop.rs: "If you want to
+    // invert a push, then use a pop (and vice versa)")
+    let mut o = mkstep("pop", &[("v_3", None)]);
+    o.inv = true;
+    let mut c = mkstep("push", &[("v_3", None)]);
+    c.inv = true;
+    let h = mkstep("helmert", &[("x", Some("1"))]);
+    let mut p = Pipe { header: true, globals: vec![], g_ell: Ell::No, g_k: KSpec::No, inv: false, steps: vec![o.clone(), h.clone(), c.clone()] };
+    eq(&p, "push v_3 | helmert x=1 | pop v_3");
+    p.inv = true;
+    eq(&p, "push v_3 | helmert inv x=1 | pop v_3"); // reversed: (push inv)' = push, helmert inv, (pop inv)' = pop
+    p.steps = vec![mkstep("push", &[("v_3", None)]), h, c];
+    eq(&p, "push v_3 | helmert inv x=1 | pop v_3"); // reversed: (push inv)' = push ... (push)' = pop
     // global ellps overridden locally (parse_proj test, "cart foo=bar ellps=GRS80 ellps=intl": last wins)
     let mut c = mkstep("cart", &[]);
     c.ell = Ell::Named("intl".into());
@@ -688,6 +702,9 @@ fn features(pipe: &Pipe) -> (Vec<&'static str>, bool) {
     }
     if has_pushpop(pipe) {
         f.push("push-pop");
+        if pipe.steps.iter().any(|s| (s.name == "push" || s.name == "pop") && s.inv) {
+            f.push(if pipe.inv { "push-pop-step-inv-in-inverted" } else { "push-pop-step-inv-in-plain" });
+        }
     }
     (f, nt)
 }
@@ -1076,7 +1093,7 @@ fn raw_pipe(max_steps: usize) -> impl Strategy<Value = RawPipe> {
         prop::collection::vec((any::<u16>(), any::<u16>()), 0..=3),
         prop::collection::vec(raw_step(), 1..=max_steps),
         0u8..3,
-        prop::option::weighted(0.08, (any::<u16>(), any::<u16>(), 1u8..16)),
+        prop::option::weighted(0.1, (any::<u16>(), any::<u16>(), 1u8..16)),
     )
         .prop_map(|(header, inv, g_ell, g_k, globals, steps, start, wrap)| RawPipe { header, inv, g_ell, g_k, globals, steps, start, wrap })
 }
@@ -1126,9 +1143,14 @@ fn build_pipe(r: &RawPipe, excl: &Excl) -> (Pipe, bool, Vec<String>) {
             let i = pick(a, steps.len());
             let j = i + pick(b, steps.len() - i);
             let flags: Vec<Param> = (0..4).filter(|k| mask & (1 << k) != 0).map(|k| (format!("v_{}", k + 1), None)).collect();
-            let mk = |name: &str| Step { name: name.into(), params: flags.clone(), ell: Ell::No, k: KSpec::No, inv: false, omit_fwd: false, omit_inv: false };
-            steps.insert(j + 1, mk("pop"));
-            steps.insert(i, mk("push"));
+            let mk = |name: &str, inv: bool| Step { name: name.into(), params: flags.clone(), ell: Ell::No, k: KSpec::No, inv, omit_fwd: false, omit_inv: false };
+            // a step-level inv is kept: `pop inv` acts as a push and `push inv` as a pop, so the
+            // bracket is opened by `push` or `pop inv` and closed by `pop` or `push inv`
+            // (spelling taken from the low bits of the draws; the stack stays balanced)
+            let closer = if b & 1 == 1 { mk("push", true) } else { mk("pop", false) };
+            let opener = if a & 1 == 1 { mk("pop", true) } else { mk("push", false) };
+            steps.insert(j + 1, closer);
+            steps.insert(i, opener);
         }
     }
     let header = r.header;
